@@ -171,7 +171,7 @@ Print Assumptions C03_matcher_ff_ok.
    retained - one spilled at Accept, one handed back at shutdown - two dropped for lack of queue room / space). *)
 Theorem C03_example :
   exists s, ex_final = Some s /\ reachable match_ff 4096 s /\ settled s /\
-    g_confirmed (st_gh s) = [n_a] /\ g_retained (st_gh s) = [n_c; n_b] /\ g_dropped (st_gh s) = [n_d; n_e] /\
+    g_confirmed (st_gh s) = [n_a] /\ g_retained (st_gh s) = [n_b; n_c] /\ g_dropped (st_gh s) = [n_d; n_e] /\
     st_dir s = [(n_b, EFile [4; 5; 6; 7; 8]); (n_c, EFile [9; 9; 9; 9; 9; 9])] /\
     map c_id (taken (st_gh s)) = [n_a; n_b].
 Proof. exact ex_conservation. Qed.
